@@ -83,5 +83,53 @@ Definition args_okb (c : case) : bool :=
   | _ => false
   end.
 
+(* A1 on every length: the model computes with unbounded numbers where the crate computes in `usize`
+   (`(len + 7) / 8`, `len + additional`, ...); the two agree only while no such expression wraps, which
+   A1 guarantees.  Operand lengths are bounded by addressable memory in any execution; length
+   *arguments* are arbitrary `usize` values, so the scope has to say it. *)
+Definition lens_okb (c : case) : bool :=
+  forallb (fun x => xlen x <? A1) (c_vals c) &&
+  match c_op c with
+  | 1 | 2 | 3 | 7 | 43 | 45 => arg c 0 <? A1
+  | 13 => arg c 1 <? A1
+  | 56 => len0 c + arg c 0 <? A1
+  | _ => true
+  end.
+
 Definition case_okb (c : case) : bool :=
-  forallb goodb (c_vals c) && kind_okb (c_kind c) && args_okb c.
+  forallb goodb (c_vals c) && kind_okb (c_kind c) && args_okb c && lens_okb c.
+
+(* The verdicts the driver computes on every trace line.  Inside the length bound they are the
+   correspondence (model = implementation) and the property relation.  Outside it - a length argument
+   no address space can hold - neither the model nor the specification value is computed (both involve
+   numbers like 2^(2^64)); running out of memory (a panic, or an abort which the check reports as a
+   panic) and errors are accepted, and a normal return must still be a canonical vector (so len <=
+   capacity) with the requested length, respectively the requested capacity. *)
+Definition want_len (c : case) : option N :=
+  match c_op c with
+  | 1 | 2 | 7 | 43 | 45 => Some (arg c 0)
+  | 13 => Some (arg c 1)
+  | _ => None
+  end.
+
+Definition want_cap (c : case) : option N :=
+  match c_op c with
+  | 3 => if kind_fixed (c_kind c) then None else Some (arg c 0)
+  | 56 => Some (len0 c + arg c 0)
+  | _ => None
+  end.
+
+Definition beyond_ok (c : case) (r : result) : bool :=
+  match r with
+  | Ok (IV x :: _) =>
+      canonb x &&
+      match want_len c with Some n => xlen x =? n | None => true end &&
+      match want_cap c with Some n => n <=? x_capacity x | None => true end
+  | _ => true
+  end.
+
+Definition prop_verdict (c : case) (observed : result) : bool :=
+  if lens_okb c then prop_case c observed else beyond_ok c observed.
+
+Definition corr_verdict (c : case) (observed : result) : bool :=
+  if lens_okb c then result_eqb (run_case c) observed else true.
